@@ -1,20 +1,30 @@
 #!/bin/bash
-# Builds the harness (tag verif) and, for the properties that need them, the real binaries from /repo.
+# Builds the harness (tag verif) and, for the properties that need them, the real binaries from the repository under
+# check: /repo's working tree, or the scratch worktree named by VERIF_REPO (evaluation of seeded changes; output then
+# goes to VERIF_BUILD so that the binaries of the unchanged tree are never overwritten).
 set -eu
 cd "$(dirname "$0")"
 . ./env.sh
-mkdir -p .build
-OUT="$PWD/.build"
+REPO="${VERIF_REPO:-/repo}"
+OUT="${VERIF_BUILD:-$PWD/.build}"
+mkdir -p "$OUT"
 PROP="${1:-all}"
-cp /repo/hermes/go.sum harness/go.sum.repo 2>/dev/null || true
-( cd harness && go build -tags verif -o ../.build/vmon . )
-case "$PROP" in C03|all) ( cd harness && go build -race -tags verif -o ../.build/vmon_race . );; esac
+MODFLAG=""
+if [ "$REPO" != "/repo" ]; then
+  # same harness sources, module file with the replace directive pointing at the scratch worktree
+  mkdir -p "$OUT/mod"
+  sed "s#=> /repo/hermes#=> $REPO/hermes#" harness/go.mod > "$OUT/mod/go.mod"
+  cp harness/go.sum "$OUT/mod/go.sum"
+  MODFLAG="-modfile=$OUT/mod/go.mod"
+fi
+( cd harness && go build $MODFLAG -tags verif -o "$OUT/vmon" . )
+case "$PROP" in C03|all) ( cd harness && go build $MODFLAG -race -tags verif -o "$OUT/vmon_race" . );; esac
 need_bins=0
 case "$PROP" in C03|C11|C13|C17|all) need_bins=1;; esac
 if [ $need_bins = 1 ]; then
   # repository binaries: workspace mode (go.work), no -mod flag
-  ( cd /repo/src/hermes2go && env -u GOFLAGS GOWORK= go build -tags verif -race -o $OUT/hermes2go_race . )
-  ( cd /repo/src/hermes2go && env -u GOFLAGS GOWORK= go build -tags verif -o $OUT/hermes2go . )
-  ( cd /repo/src/calcHermesBatch && env -u GOFLAGS GOWORK= go build -o $OUT/calcHermesBatch . )
-  ( cd /repo/src/cropfileconverter && env -u GOFLAGS GOWORK= go build -o $OUT/cropfileconverter . )
+  ( cd "$REPO/src/hermes2go" && env -u GOFLAGS GOWORK= go build -tags verif -race -o "$OUT/hermes2go_race" . )
+  ( cd "$REPO/src/hermes2go" && env -u GOFLAGS GOWORK= go build -tags verif -o "$OUT/hermes2go" . )
+  ( cd "$REPO/src/calcHermesBatch" && env -u GOFLAGS GOWORK= go build -o "$OUT/calcHermesBatch" . )
+  ( cd "$REPO/src/cropfileconverter" && env -u GOFLAGS GOWORK= go build -o "$OUT/cropfileconverter" . )
 fi
